@@ -1,18 +1,11 @@
-// C04 — TU: rgb32f (float channels: equal_pixels with +0/-0), gray8 / rgb16 / rgba8 (pixel sizes 1, 6, 4 in the
-// memmove / memcmp length computations), and converting copies between 8-bit, 16-bit and float pixels.
+// C04 — TU: rgb32f, interleaved and planar (float channels: equal_pixels / image== with +0.0f vs -0.0f; the memmove and
+// memcmp leaves with 12-byte pixels / 4-byte channels).
 #include "c04_common.hpp"
 using namespace c04;
 
 using IF  = FamI<gil::rgb32f_pixel_t>;
 using IFc = FamI<gil::rgb32f_pixel_t, true>;
 using PF  = FamP<gil::float32_t>;
-using G8  = FamI<gil::gray8_pixel_t>;
-using I16 = FamI<gil::rgb16_pixel_t>;
-using P16 = FamP<uint16_t>;
-using A8  = FamI<gil::rgba8_pixel_t>;
-using I8  = FamI<gil::rgb8_pixel_t>;
-using BGR8 = FamI<gil::bgr8_pixel_t>;
-using P8  = FamP<uint8_t>;
 
 #define C04_BOUNDS vh::ubsan_counts() = false; int N = int(ctx.B("N", 4)), X0 = int(ctx.B("X0", 3));
 
@@ -40,40 +33,5 @@ VH_GROUP(dst_f)
     C04_BOUNDS
     run_dst<IF>(ctx, N, X0);
     run_dst<PF>(ctx, N, X0);
-}
-// other pixel sizes through the raw-pointer / planar fast paths
-VH_GROUP(sizes)
-{
-    C04_BOUNDS
-    PairRunner<G8, G8, G8>::run(ctx, N, X0);
-    PairRunner<I16, I16, P16>::run(ctx, N, X0);
-    PairRunner<I16, P16, I16, false>::run(ctx, N, X0);
-    PairRunner<P16, P16, I16, false>::run(ctx, N, X0);
-    PairRunner<A8, A8, A8>::run(ctx, N, X0);
-    run_dst<G8>(ctx, N, X0);
-    run_dst<I16>(ctx, N, X0);
-    run_dst<P16>(ctx, N, X0);
-    run_dst<A8>(ctx, N, X0);
-    EqualRunner<G8, G8>::run(ctx, N, X0);
-    EqualRunner<I16, I16>::run(ctx, N, X0);
-    EqualRunner<P16, P16>::run(ctx, N, X0);
-    EqualRunner<I16, P16>::run(ctx, N, X0);
-    EqualRunner<A8, A8>::run(ctx, N, X0);
-}
-// copy_and_convert_pixels between incompatible views (colour space and/or channel type differ), and the
-// compatible-but-different-layout pair rgb8 <-> bgr8 where a byte copy would be wrong
-VH_GROUP(convert)
-{
-    C04_BOUNDS
-    PairRunner<I8, BGR8, I8, false>::run(ctx, N, X0);
-    PairRunner<BGR8, P8, I8, false>::run(ctx, N, X0);
-    PairRunner<I8, G8, I8, false>::run(ctx, N, X0);
-    PairRunner<G8, P8, I8, false>::run(ctx, N, X0);
-    PairRunner<I8, I16, I8, false>::run(ctx, N, X0);
-    PairRunner<P16, I8, I8, false>::run(ctx, N, X0);
-    PairRunner<I8, PF, I8, false>::run(ctx, N, X0);
-    PairRunner<IF, I8, I8, false>::run(ctx, N, X0);
-    EqualRunner<I8, BGR8>::run(ctx, N, X0);
-    EqualRunner<BGR8, P8>::run(ctx, N, X0);
 }
 VH_MAIN
